@@ -11,6 +11,8 @@ import xstate_common as xc
 
 
 def check(run):
+    if xc.maybe_replay(run):
+        return
     quick = run.tier == "quick"
     run.build_harness()
     run.tlc_mc("XState.tla", "MC_XState_kv.cfg" if quick else "MC_XState_kv_thorough.cfg", timeout=3000)
